@@ -341,7 +341,10 @@ class Result:
         self.extra_sets.setdefault(name, set()).add(item)
 
     def violation(self, prop, signature, message, case=None, variant='release', detail=None):
-        if len(self.violations) < 200:
+        self.sigcount = getattr(self, 'sigcount', {})
+        k = self.sigcount.get(signature, 0)
+        self.sigcount[signature] = k + 1
+        if k < 5 and len(self.violations) < 400:
             self.violations.append({'property': prop, 'signature': signature, 'message': message,
                                     'case': case.to_json() if case is not None else None,
                                     'variant': variant, 'detail': detail})
@@ -360,8 +363,11 @@ class Result:
         self.distinct |= other.distinct
         for k, s in other.extra_sets.items():
             self.extra_sets.setdefault(k, set()).update(s)
+        self.sigcount = getattr(self, 'sigcount', {})
         for v in other.violations:
-            if len(self.violations) < 400:
+            k = self.sigcount.get(v['signature'], 0)
+            self.sigcount[v['signature']] = k + 1
+            if k < 5 and len(self.violations) < 1000:
                 self.violations.append(v)
         for s in other.samples:
             if len(self.samples) < 6:
